@@ -23,10 +23,13 @@ package keeper
 // C19: the message is executed on a cache context whenever post-processing hooks are registered, so that a failed
 // execution or hook discards every write made through the context (precompile state included)
 //@ func (*Keeper).ApplyTransaction
-//@   flag pure=EVMConfig,NewTxConfig,GetTxIndexTransient,GetLogSizeTransient,GetBaseFee,MakeSigner,AsMessage,Hash,HeaderHash,GetTxIndexTransient
+//@   flag pure=EVMConfig,NewTxConfig,GetTxIndexTransient,GetLogSizeTransient,GetBaseFee,MakeSigner,AsMessage,Hash,HeaderHash,GetTxIndexTransient,Failed
 //@   flag havoc=ApplyMessageWithConfig,PostTxProcessing,RefundGas,ResetGasMeterAndConsumeGas,SetBlockBloomTransient,SetTxIndexTransient,SetLogSizeTransient,BloomValue
 //@   modifies state(ctx)
 //@   before[C19.at.cached] ApplyMessageWithConfig requires k.hooks == nil || arg_ctx.cell != ctx.cell
+// C09 / C19 (a failed transaction leaves no trace - what the precompiles wrote to the module stores included): the cache
+// context is committed only for a transaction that executed successfully and whose post-processing hooks succeeded.
+//@   before[C09.at.commit,C19.at.commit] writeCache requires defined(res_Failed_0) && !res_Failed_0 && defined(res_PostTxProcessing_0) && res_PostTxProcessing_0 == nil
 
 // C19 (after a transaction every touched account's bank balance is the balance the EVM computed): committing an
 // account always brings its bank balance to the committed value - also when that value is zero (an account drained by
